@@ -1,41 +1,7 @@
-import Dbg.Model.Walk
-/-! Prototype: string-level model of `CompressFromHash` (compression.rs 355-583). -/
+import Dbg.Model.Seq
+/-! String-level model of `CompressFromHash` (compression.rs 355-583). -/
 namespace Compress
 open Walk (Dir rm mem_rm rm_length_lt)
-
-abbrev Base := Fin 4
-abbrev Seq := List Base
-
-def comp (b : Base) : Base := ⟨3 - b.val, by omega⟩
-def rc (s : Seq) : Seq := (s.map comp).reverse
-def extendLeft (x : Seq) (b : Base) : Seq := b :: x.dropLast
-def extendRight (x : Seq) (b : Base) : Seq := x.tail ++ [b]
-def extend (x : Seq) (b : Base) : Dir → Seq
-  | .L => extendLeft x b
-  | .R => extendRight x b
-
-/-- `min_rc_flip`: `(min, flip)`, flip is true unless `x < rc x` -/
-def minRcFlip (x : Seq) : Seq × Bool := if x < rc x then (x, false) else (rc x, true)
-def isPalindrome (x : Seq) : Bool := x.length % 2 == 0 && x == rc x
-def condFlip (d : Dir) (b : Bool) : Dir := if b then d.flip else d
-
-/-- extension byte, lib.rs 577-749 -/
-structure Exts where
-  val : Nat
-deriving DecidableEq, Repr
-def Exts.dirBits (e : Exts) : Dir → Nat
-  | .R => e.val >>> 4
-  | .L => e.val &&& 0xf
-def Exts.numExtDir (e : Exts) (d : Dir) : Nat :=
-  let b := e.dirBits d
-  (b &&& 1) + ((b &&& 2) >>> 1) + ((b &&& 4) >>> 2) + ((b &&& 8) >>> 3)
-def Exts.singleDir (e : Exts) (d : Dir) : Exts := ⟨e.dirBits d⟩
-def Exts.uniqueExt (e : Exts) (d : Dir) : Option Base :=
-  if e.numExtDir d != 1 then none
-  else
-    let b := e.dirBits d
-    if b &&& 1 > 0 then some 0 else if b &&& 2 > 0 then some 1 else if b &&& 4 > 0 then some 2
-    else if b &&& 8 > 0 then some 3 else none
 
 structure Entry (D : Type) where
   key : Seq
